@@ -89,10 +89,14 @@ theorem deliverTx_frame (n : Node K V C T H D) (tx : T) :
   unfold deliverTx
   split
   · exact ⟨rfl, rfl, rfl, rfl, rfl⟩
-  · refine ⟨?_, rfl, rfl, rfl, rfl⟩
-    simp only []
-    refine (finish_tree _ _).trans ?_
-    rw [run_tree, run_tree]; rfl
+  · simp only []
+    split
+    · refine ⟨?_, rfl, rfl, rfl, rfl⟩
+      show (Prog.run cfg (hs.validate tx) _ n.vol e).2.1.tree = n.tree
+      rw [run_tree]; rfl
+    · refine ⟨?_, rfl, rfl, rfl, rfl⟩
+      refine (finish_tree _ _).trans ?_
+      rw [run_tree, run_tree, run_tree]; rfl
 
 theorem checkTx_frame (n : Node K V C T H D) (tx : T) :
     (checkTx cfg hs e n tx).1.tree = n.tree ∧ (checkTx cfg hs e n tx).1.dlv = n.dlv ∧
@@ -177,12 +181,14 @@ theorem midBlock_frame (n : Node K V C T H D) (txs : List T) (k : Nat) (ended : 
 
 theorem deliverTx_env (hf : AllEnvFree hs) (n : Node K V C T H D) (tx : T) (e₁ e₂ : E) :
     deliverTx cfg hs e₁ n tx = deliverTx cfg hs e₂ n tx := by
-  obtain ⟨_, _, h3, h4⟩ := hf.1 tx
+  obtain ⟨h1, _, h3, h4⟩ := hf.1 tx
+  have hv : ∀ s m, (hs.validate tx).run cfg s m e₁ = (hs.validate tx).run cfg s m e₂ :=
+    fun s m => run_env cfg _ h1 s m e₁ e₂
   have hd : ∀ s m, (hs.deliver tx).run cfg s m e₁ = (hs.deliver tx).run cfg s m e₂ :=
     fun s m => run_env cfg _ h3 s m e₁ e₂
   have hfe : ∀ g s m, (hs.fee tx g).run cfg s m e₁ = (hs.fee tx g).run cfg s m e₂ :=
     fun g s m => run_env cfg _ (h4 g) s m e₁ e₂
-  simp only [deliverTx, hd, hfe]
+  simp only [deliverTx, hv, hd, hfe]
 
 theorem checkTx_env (hf : AllEnvFree hs) (n : Node K V C T H D) (tx : T) (e₁ e₂ : E) :
     checkTx cfg hs e₁ n tx = checkTx cfg hs e₂ n tx := by
@@ -250,7 +256,11 @@ theorem deliverTx_congr (n n' : Node K V C T H D) (h : n.consensus = n'.consensu
   obtain ⟨rfl, rfl, rfl, rfl, rfl⟩ := h
   unfold deliverTx
   simp only []
-  cases lookupIdx i (hs.hash tx) <;> exact ⟨rfl, rfl⟩
+  cases lookupIdx i (hs.hash tx) with
+  | some r => exact ⟨rfl, rfl⟩
+  | none =>
+    simp only []
+    cases (Prog.run cfg (hs.validate tx) (d.toSt t).begin v e).1 <;> exact ⟨rfl, rfl⟩
 
 theorem runHook_congr (n n' : Node K V C T H D) (h : n.consensus = n'.consensus)
     (hk : Bool × Prog K V C E Unit) (hk1 : hk.1 = true) :
